@@ -119,6 +119,12 @@ def gen_match (rng, respect=True):
       if f in it: it[f] = it[f][1]
     m._pvm_intent = it
     m._pvm_addr = addr
+    if rng.random() < 0.15:
+      # the match has been used as a dictionary key / set member (which
+      # locks it against further changes): it is encoded like any other
+      hash(m)
+      try: m.__dict__["_pvm_hashed"] = True
+      except Exception: pass
   return m
 
 
